@@ -5,15 +5,16 @@ cd /verif
 if [ -n "$(git -C /repo status --porcelain)" ]; then echo "refusing to run: /repo has uncommitted changes (they would be lost by the undo step)"; exit 2; fi
 out=seeded/RESULTS.md
 [ -n "$1" ] && out=/tmp/seeded-partial.md
-echo "| change | property | caught | failed obligations |" > $out; echo "|---|---|---|---|" >> $out
+echo "| change | property | caught | violations replayed on the real code | failed obligations |" > $out; echo "|---|---|---|---|---|" >> $out
 for d in seeded/C*/; do
   name=$(basename $d); prop=${name%%-*}
   [ -n "$1" ] && [[ "$name" != $1* ]] && continue
-  git -C /repo apply /verif/$d/patch.diff || { echo "| $name | $prop | patch failed | |" >> $out; continue; }
+  git -C /repo apply /verif/$d/patch.diff || { echo "| $name | $prop | patch failed | | |" >> $out; continue; }
   res=$(timeout 900 bin/vcheck prop $prop --tier quick 2>&1)
   git -C /repo checkout -- . ; git -C /repo clean -fdq
   obs=$(echo "$res" | grep "^  obligation" | sed 's/^  obligation //' | cut -c1-110 | head -4 | tr '\n' ';')
   if echo "$res" | grep -q "^VIOLATION property=$prop"; then c=yes; else c=NO; fi
-  echo "| $name | $prop | $c | $obs |" >> $out
+  nv=$(echo "$res" | grep -c "^VIOLATION"); nr=$(echo "$res" | grep "^VIOLATION" | grep -vc "no-failing-input-found")
+  echo "| $name | $prop | $c | $nr of $nv | $obs |" >> $out
   echo "$name $c"
 done
